@@ -311,6 +311,40 @@ def biglit_frame(rng, info=False):
     return fr, bytes(out), hand
 
 
+def overfull_frame(rng):
+    """INVALID single-block frame (its block regenerates more than the destination holds): > 64 KiB of RLE literals, a first sequence whose
+    very long match fills the destination up to a few bytes before its end, then a sequence whose literal run crosses the point where the
+    literals are handed over from their destination-resident part to the decoder's side buffer - the overflow must be refused BEFORE the
+    left-over literals are copied.  Returns (frame, capacity to decode into)."""
+    cap = rng.choice([131072, 131072, 131072 - rng.randint(1, 3000)])
+    nlits = rng.randint(65537 + 600, 80000)
+    D = nlits - 65536                                  # literals that sit at the end of the destination
+    llc = rng.choice([26, 27, 28, 29])                 # bases 128, 256, 512, 1024 (7..10 extra bits)
+    ll0 = LL_base[llc] + rng.getrandbits(LL_bits[llc])
+    ll1 = LL_base[llc] + rng.getrandbits(LL_bits[llc])
+    if not (ll0 < D < ll0 + ll1):
+        ll0 = LL_base[llc]; D = ll0 + rng.randint(1, LL_base[llc] - 1); nlits = D + 65536; ll1 = LL_base[llc] + rng.getrandbits(LL_bits[llc])
+        if ll0 + ll1 <= D: ll1 = LL_base[llc] * 2 - 1
+    leftover = D - ll0
+    room = rng.randint(0, max(0, leftover - 1))       # bytes left before the end of the destination when the second sequence starts
+    ml0 = cap - ll0 - room
+    mlc = 52
+    if not (ML_base[mlc] <= ml0 < ML_base[mlc] + (1 << ML_bits[mlc])):
+        return overfull_frame(rng)
+    seqs = [(ll0, ml0), (ll1, ML_base[mlc])]
+    b = rng.getrandbits(8)
+    lit_sec = lit_header(1, nlits, 3) + bytes([b])
+    sec = bytes([len(seqs)]) + bytes([0x54, llc, 0, mlc])
+    fields = []
+    for (ll, ml) in seqs:
+        fields.append((ml - ML_base[mlc], ML_bits[mlc]))
+        if LL_bits[llc]: fields.append((ll - LL_base[llc], LL_bits[llc]))
+    sec += bitstream(fields)
+    body = lit_sec + sec
+    blk = ((len(body) << 3) | (2 << 1) | 1).to_bytes(3, "little") + body
+    return b"\x28\xb5\x2f\xfd\x00" + bytes([0x38]) + blk, cap
+
+
 def stream(rng):
     """several frames and skippable frames back to back"""
     parts, content = [], b""
